@@ -51,6 +51,10 @@ func childMain(args []string) {
 		}
 	case "mode":
 		modeProbe(r)
+	case "faulty":
+		for i := 0; i < *n; i++ {
+			faultyForward(r, i)
+		}
 	}
 	emit(map[string]interface{}{"kind": "done"})
 }
@@ -562,6 +566,57 @@ func smallHistory(r *rand.Rand, idx int) {
 // A List call is parked inside the caller-supplied key comparison function
 // (called by sort.Slice while List holds the server mutex, with no agent round
 // trip in progress); a second goroutine then calls the method under test.
+
+// faultyForward: the upstream answers one raw request with a reply the shim has to refuse, while other clients
+// keep operating: the refused forward returns an error and EVERY operation - the failed one, those running
+// beside it and those issued afterwards - completes.
+func faultyForward(r *rand.Rand, idx int) {
+	stop := watchdog(fmt.Sprintf("history %d with a refused upstream reply (raw forward answered by an oversized length prefix)", idx), 10*time.Second)
+	defer stop()
+	viaConn := idx%2 == 1
+	s, err := newSUT(viaConn, idx%4 >= 2, nil)
+	if err != nil {
+		emit(map[string]interface{}{"kind": "setup-error", "error": err.Error()})
+		return
+	}
+	defer s.close()
+	nth := 2 + r.Intn(3)
+	callers := make([]caller, nth)
+	for t := range callers {
+		if callers[t], err = s.caller(); err != nil {
+			emit(map[string]interface{}{"kind": "setup-error", "error": err.Error()})
+			return
+		}
+	}
+	var wg sync.WaitGroup
+	problems := make([]string, nth)
+	for t := range callers {
+		wg.Add(1)
+		go func(t int) {
+			defer wg.Done()
+			c := callers[t]
+			if t == 0 {
+				if _, err := c.Forward(append([]byte{faultMark}, newTag()...)); err == nil {
+					problems[t] = "Forward returned a reply although the upstream's length prefix was above the bound"
+				}
+			} else {
+				_, _ = c.List()
+			}
+			// afterwards everybody can still work
+			if ok, d := forwardTagged(c, r); !ok && !viaConn {
+				problems[t] = "after the refused reply: " + d
+			}
+			_, _ = c.List()
+		}(t)
+	}
+	wg.Wait()
+	for _, p := range problems {
+		if p != "" {
+			emit(map[string]interface{}{"kind": "faulty-problem", "what": p})
+		}
+	}
+	emit(map[string]interface{}{"kind": "faulty-ok", "threads": nth})
+}
 
 func modeProbe(r *rand.Rand) {
 	methods := []string{"List", "Signers", "Sign", "SignWithFlags", "Add", "Remove", "RemoveAll", "AddHardCert",
